@@ -119,6 +119,13 @@ def compact_class_pairs(
         for j, class2 in enumerate(class1.Class2Record):
             if is_really_zero(class2):
                 continue
+            if not classes1[i] or (j != 0 and not classes2[j]):
+                # Unused class id: no glyph can reach this record.
+                continue
+            if j == 0:
+                # Class 0 of ClassDef2 stands for every glyph not listed there;
+                # a value for it cannot be expressed by regrouping glyph classes.
+                return [subtable]
             all_pairs[(tuple(sorted(classes1[i])), tuple(sorted(classes2[j])))] = (
                 getattr(class2, "Value1", None),
                 getattr(class2, "Value2", None),
